@@ -214,7 +214,7 @@ def build_tables(tier: str, seed: int, families=("ref", "opt"), log=lambda *a: N
             pairs = [(a, b) for a in el_bin for b in el_bin]
             ex_bin = True
         else:
-            sp = special_elems(f, rng, (14 if big else 24) if quick else 60)
+            sp = special_elems(f, rng, (14 if big else 24) if quick else (36 if big else 60))
             pairs = [(a, b) for a in sp for b in sp]
             ex_bin = False
         ks = int_operands(p, rng)
@@ -222,7 +222,7 @@ def build_tables(tier: str, seed: int, families=("ref", "opt"), log=lambda *a: N
         es = exponents(f, rng, tier)
         if big:   # long exponents on a degree-12 field cost TLC seconds per row
             pow_ops = ([(a, e) for a in small[:12] for e in es if e.bit_length() <= 64]
-                       + [(a, e) for a in small[5:(7 if quick else 12)] for e in es if e.bit_length() > 64])
+                       + [(a, e) for a in small[5:(7 if quick else 9)] for e in es if e.bit_length() > 64])
         else:
             pow_ops = [(a, e) for a in small for e in es]
         for fam in families:
